@@ -160,3 +160,21 @@ SPECS['C09'] = dict(
     quick=dict(workers=16, cases=1500, size=100, timeout=1500),
     thorough=dict(workers=16, cases=30000, size=100, timeout=7200),
 )
+
+SPECS['C17'] = dict(
+    kind='native', drivers=['p_c17.cpp'], shims=['sut_strm'], with_lib=True,
+    level='exploration', exhaustive_part=True,
+    technique='exhaustive Easter offsets against an independent computus + metamorphic SHIFT relation on echse\'s own unshifted output (rapidcheck)',
+    level_text=('BYEASTER=N is enumerated for every N in -366..366 over 1901-2099 against the Meeus/Jones/Butcher computus (complete on every run); '
+                'SHIFT is checked by applying an independent implementation of the README semantics to echse\'s own unshifted occurrences of generated '
+                'MONTHLY/YEARLY base rules and comparing with the shifted rule (sampled).'),
+    level_note='SHIFT semantics follow README.md and the behaviour pinned by the repo tests rrul_50/unroll_05..13 (weekend hop counts as the first business day for plain NB)',
+    rule=('easter: rule FREQ=YEARLY;BYEASTER=N from 1901-01-01, every N in -366..366 (733 rules x 199 years), plus generated 3-element lists; owed = '
+          '{Easter(y)+N} within 1901..2099 including days falling into the neighbouring year. shift: base rule (MONTHLY/YEARLY with BYMONTHDAY/BYDAY/BYMONTH, INTERVAL=1), '
+          'DTSTART 1903..2090, SHIFT = days -366..366 and/or business days -30..30 with 0B/-0B/B+/B- variants, optional COUNT; expected = sorted unique S(o) for o in '
+          'echse\'s unshifted stream anchored two years earlier, restricted to >= DTSTART, first COUNT. non-trivial: every case (each compares >= 100 dates); distinct = case text'),
+    assumptions=['where the statement\'s wording and the pinned tests could be read differently (does the weekend hop count as a business day?) the oracle follows README + pinned tests',
+                 'duplicates produced by two dates shifted onto the same day are compared as a set here (strict ordering is C16\'s subject)'],
+    quick=dict(workers=16, cases=400, size=100, timeout=1500),
+    thorough=dict(workers=16, cases=10000, size=100, timeout=7200),
+)
